@@ -123,6 +123,10 @@ func GenImport(r *simrt.Rand, faultsOK bool) *ImportProg {
 				m.Body = append(m.Body, goStmt(r, 100*i+j, next()))
 			case x < 8:
 				m.Body = append(m.Body, ImportStmt{K: "mut", M: names[r.Intn(len(names))], V: 100*i + j, ID: next()})
+			case x == 9 && r.Chance(1, 2):
+				// the running program is the module __main__: a module imported
+				// by it reaches the program's namespace through `import __main__`
+				m.Body = append(m.Body, ImportStmt{K: "mainmod", V: 100*i + j, ID: next()})
 			default:
 				m.Body = append(m.Body, ImportStmt{K: "read", M: names[r.Intn(len(names))], ID: next()})
 			}
@@ -258,9 +262,16 @@ func (p *ImportProg) renderMod(m ImportMod) string {
 
 func (p *ImportProg) RenderMain() string {
 	var b strings.Builder
-	b.WriteString("from simlog import log, exc_name, libdir, fs_add\n_held = {}\n")
+	b.WriteString("from simlog import log, exc_name, libdir, fs_add\n_held = {}\nmk = 4711\n")
 	for _, s := range p.Main {
 		renderImportStmt(&b, s, "main")
+	}
+	for _, m := range p.Mods {
+		for _, s := range m.Body {
+			if s.K == "mainmod" {
+				fmt.Fprintf(&b, "try:\n    log(\"main\", 0, \"seen\", %d, seen_%d)\nexcept NameError:\n    log(\"main\", 0, \"seen\", %d, \"unset\")\n", s.ID, s.ID, s.ID)
+			}
+		}
 	}
 	// a module object obtained early is THE module object: whatever was
 	// imported in between, importing it again yields the very same object
@@ -352,6 +363,8 @@ func renderImportStmt(b *strings.Builder, s ImportStmt, me string) {
 			hold = fmt.Sprintf("    if \"%s\" not in _held:\n        _held[\"%s\"] = _t\n", s.M, s.M)
 		}
 		fmt.Fprintf(b, "try:\n    import %s as _t\n%s    log(%s, \"read\", \"%s\", _t.val, _t.x)\nexcept (ImportError, AttributeError) as _e:\n    log(%s, \"read\", \"%s\", exc_name(_e))\n", s.M, hold, tag, s.M, tag, s.M)
+	case "mainmod":
+		fmt.Fprintf(b, "try:\n    import __main__ as _mm\n    log(%s, \"mainmod\", getattr(_mm, \"mk\", \"unset\"), _mm.__name__)\n    _mm.seen_%d = %d\nexcept ImportError as _e:\n    log(%s, \"mainmod\", exc_name(_e))\n", tag, s.ID, s.V, tag)
 	case "raise":
 		fmt.Fprintf(b, "log(%s, \"raising\")\nraise ValueError(\"boom\")\n", tag)
 	case "impbad":
